@@ -115,9 +115,10 @@ TraceRet ==
      /\ call[P].chan # NoChan => (closes[C] = 1) = t.closed
      /\ t.kind = "report" /\ call[P].doc \in DOMAIN DClass /\ DClass[call[P].doc] = "okNoNodes"
            => t.conforms = "true"
-     \* C09: a report is a function of (profile, doc, configuration) only -- whichever entry
-     \* point, handle and history produced it.  The first observation binds the value.
-     /\ IF t.kind = "report" /\ t.key # ""
+     \* C09 / C10: what a call returns (the report's hash, or the kind of failure) is a function of (profile, doc,
+     \* configuration) only -- whichever entry point, handle, history and schedule produced it.  The first
+     \* observation of a key (the fresh / solo reference) binds the value.
+     /\ IF t.key # ""
           THEN IF t.key \in DOMAIN rep
                  THEN rep[t.key] = t.sha /\ UNCHANGED rep
                  ELSE rep' = [k \in DOMAIN rep \cup {t.key} |-> IF k = t.key THEN t.sha ELSE rep[k]]
@@ -139,7 +140,7 @@ TraceEnd ==
   /\ IsEvent("end")
   /\ pc[P] = "idle"
   /\ LET t == Tr[l] IN
-       t.hasMs => /\ t.ms = MilestoneOps(ev[C])
+       t.hasMs => /\ (t.ms = MilestoneOps(ev[C]) \/ t.ms = MilestoneOpsAll(ev[C]))
                   /\ t.msok
   /\ TLCSet(2, TLCGet(2) \cup {Tr[l].id})
   /\ ResetState
